@@ -190,7 +190,14 @@ func (n *JoinNode) matchPoints(p srcPoint) {
 	if n.allReported {
 		for s := 0; s < len(n.ins); s++ {
 			sg := srcGroup{src: s, groupId: groupId}
-			if lm := n.lowMarks[sg]; lowMark.IsZero() || lm.Before(lowMark) {
+			lm, ok := n.lowMarks[sg]
+			if !ok {
+				// This parent has not reported for this group yet:
+				// nothing can be ruled out, whatever its position among the parents.
+				lowMark = time.Time{}
+				break
+			}
+			if lowMark.IsZero() || lm.Before(lowMark) {
 				lowMark = lm
 			}
 		}
